@@ -54,6 +54,26 @@
 (*                 requests for the program                                  *)
 (*   iter_list_CUs / iter_CU_range_lists_ex   DWARF5 list sections block by  *)
 (*                 block (headers with offset tables; raw lists of a block)  *)
+(*   iter_TUs / tu_by_sig / tu_list   the type units of .debug_types in       *)
+(*                 section order, and the lookups by 8-byte type signature    *)
+(*                 (get_TU_by_sig8 / get_DIE_by_sig8) over a lazily built     *)
+(*                 map; generated files (spec/ApiTypes.tla) carry sections in *)
+(*                 which SEVERAL units bear one signature (COMDAT copies kept *)
+(*                 by ld -r): the map holds fewer units than the section      *)
+(*                                                                         *)
+(* MEMO PAIRS are a dimension of the patterns: Families groups the calls     *)
+(* that could plausibly share a cache slot, a lazily built table or a        *)
+(* stream (call-frame information of .debug_frame / .eh_frame; pubnames /    *)
+(* pubtypes / aranges; location / range lists; line programs of two units;   *)
+(* two symbol tables; notes of a section / of a segment; units by offset,    *)
+(* by signature, in order; ...).  For every two calls A, B of one family -   *)
+(* with every argument pair, A = B with other arguments included -           *)
+(*   PP  A, B, A on one object                                               *)
+(*   PQ  A, then a generator B of the family started AFTER it and advanced   *)
+(*       (P3 has the query between two next() calls of a live generator)     *)
+(* each answer compared with a fresh object's.  FamiliesCover: every call    *)
+(* of the alphabet is in a family, is a held-container call or is one of a   *)
+(* kind (Solo, asked twice by P4).                                           *)
 (***************************************************************************)
 EXTENDS Integers, Sequences, FiniteSets, TLC, Json, CSV, IOUtils
 
@@ -84,13 +104,24 @@ Queries == {"num_sections", "section_by_name", "get_section", "section_index", "
             \* the directory / file tables of a line-number program header after the program was run (DW_LNE_define_file adds to them)
             "line_tables",
             \* a walk over every entry of every unit (afterwards the entry caches are complete)
-            "die_count"} \cup HeldQueries
+            "die_count",
+            \* lookups by type signature (a: which signature - the driver lists the signatures SEVERAL type units bear first, then the
+            \* others, then one no unit has; b even: get_TU_by_sig8, b odd: get_DIE_by_sig8): they share one lazily built map
+            "tu_by_sig",
+            \* the type units / the compile units in section order, a complete enumeration as one call
+            "tu_list", "cu_list",
+            \* .debug_pubtypes (as pubnames), the decoded table of a .debug_frame entry (as decoded: .eh_frame)
+            "pubtypes", "cfi_decoded",
+            \* the notes of the a-th SHT_NOTE section (b even) / of the a-th PT_NOTE segment (b odd)
+            "notes"} \cup HeldQueries
 GenKinds == {"iter_sections", "iter_segments", "iter_symbols", "iter_tags", "iter_notes", "iter_CUs", "iter_DIEs",
              "iter_children", "iter_siblings", "iter_location_lists", "iter_range_lists", "iter_relocations",
              "iter_subsections", "iter_versions", "line_entries", "held_iter",
              \* DWARF5 list sections block by block: the block headers with their offset tables (a even: .debug_rnglists, a odd:
              \* .debug_loclists), and the raw lists of block a
-             "iter_list_CUs", "iter_CU_range_lists_ex"}
+             "iter_list_CUs", "iter_CU_range_lists_ex",
+             \* the type units of .debug_types in section order
+             "iter_TUs"}
 ListKinds == {"iter_location_lists", "iter_range_lists", "iter_list_CUs", "iter_CU_range_lists_ex"}
 Streams == {"elf", "dwarf", "all"}
 Wheres == {"zero", "mid", "end"}
@@ -162,7 +193,32 @@ PH3 == {<<HStart(a, 1), HAdv(a, 1), HQ(q, a, b), HAdv(a, 1), HAdv(a, 1), HAdv(a,
 PH4 == {<<HQ(q, a, b), HQ(q, a, b)>> : q \in {"held_get", "held_first"}, a \in HeldIx, b \in {0, 1, 2}}
        \cup {<<HQ(q, a, b), HQ(q2, a, b2), HQ(q, a, b)>> :
                q \in {"held_get", "held_first"}, a \in HeldIx, b \in {0, 1}, q2 \in HeldQueries, b2 \in {0, 1}}
-PatternSet == P1 \cup P2 \cup P3 \cup P4 \cup PN \cup PX \cup PW \cup PL \cup PH2 \cup PH3 \cup PH4 \cup PH5
+\* ---- memo pairs
+\* calls that could plausibly share a cache slot, a lazily built table or a stream (queries and generator kinds alike)
+Families == {
+  {"cfi", "eh_cfi", "decoded", "cfi_decoded"},                                           \* call-frame information: .debug_frame / .eh_frame
+  {"pubnames", "pubtypes", "aranges"},                                                   \* the lookup tables
+  {"loc_of_die", "ranges_of_die", "indexed_die"} \cup ListKinds,                          \* location / range lists
+  {"line_program", "line_tables", "line_entries"},                                       \* line-number programs (a: two units)
+  {"symbol_by_name", "get_symbol", "num_symbols", "hash_lookup", "versions", "iter_symbols", "iter_versions"},   \* a: two symbol tables
+  {"notes", "iter_notes"},                                                               \* notes of a section / of a segment
+  {"cu_at", "cu_containing", "top_die", "tu_by_sig", "tu_list", "cu_list", "iter_CUs", "iter_TUs", "iter_DIEs"},   \* units
+  {"die_at", "parent", "children", "follow_ref", "iter_children", "iter_siblings"},      \* entries
+  {"section_by_name", "get_section", "section_index", "name_lookup", "num_sections", "iter_sections"},
+  {"section_data", "segment_data", "string_at"},
+  {"num_segments", "get_segment", "address_offsets", "section_in_segment", "iter_segments"},
+  {"dyn_tag", "num_tags", "needed", "reloc_tables", "iter_tags", "iter_relocations"}}
+\* one of a kind (P4 asks each of them twice)
+Solo == {"has_dwarf", "dwarf_again", "ehabi", "attributes", "die_attrs", "die_count", "iter_subsections"}
+Q(q, a, b) == H("query", q, a, b, 0, "")
+\*  PP   A, B, A for every two queries of one family and every argument pair
+PP == UNION {{<<Q(q1, a1, b1), Q(q2, a2, b2), Q(q1, a1, b1)>> :
+                q1 \in F \cap Queries, q2 \in F \cap Queries, a1 \in PatIx, b1 \in PatIx, a2 \in PatIx, b2 \in PatIx} : F \in Families}
+\*  PQ   a query, then a generator of its family started after it, advanced four times, then the query again
+PQ == UNION {{<<Q(q, c, b), H("start", k, a, 0, 1, ""), H("advance", k, a, 0, 1, ""), H("advance", k, a, 0, 1, ""),
+                H("advance", k, a, 0, 1, ""), H("advance", k, a, 0, 1, ""), Q(q, c, b)>> :
+                q \in F \cap Queries, k \in F \cap GenKinds, c \in PatIx, b \in PatIx, a \in PatIx} : F \in Families}
+PatternSet == P1 \cup P2 \cup P3 \cup P4 \cup PN \cup PX \cup PW \cup PL \cup PH2 \cup PH3 \cup PH4 \cup PH5 \cup PP \cup PQ
 
 Init == /\ gens = <<>> /\ pick = ""
         /\ IF Patterns THEN hist \in PatternSet ELSE hist = <<>>
@@ -216,11 +272,18 @@ HeldSameObject ==
      \A i \in 1..Len(hist) : hist[i].op \in {"query", "start", "advance"} =>
         /\ hist[i].name \in (HeldQueries \cup {"held_iter"}) /\ hist[i].a = hist[1].a
 \* a revisiting pattern really revisits: a history of name lookups ends with the name it began with, and a history that ends with
-\* the header tables of a line-number program, after nothing but requests for line-number programs, asked only for that unit's before
+\* the header tables of a line-number program (PL) asked only for that unit's program before
 Revisits ==
   Patterns => /\ (hist[1].name = "name_lookup" /\ Len(hist) = 3 /\ hist[3].name = "name_lookup" => hist[3].a = hist[1].a)
-              /\ (hist[Len(hist)].name = "line_tables" /\ (\A i \in 1..Len(hist) : hist[i].name \in {"line_program", "line_tables"}) =>
+              /\ (hist \in PL => hist[Len(hist)].name = "line_tables" /\
                     \A i \in 1..Len(hist) : hist[i].op = "query" /\ hist[i].a = hist[Len(hist)].a /\ hist[i].b = hist[Len(hist)].b)
+\* the pair alphabet leaves no call out, and a pair pattern stays inside one family and comes back to the call it began with
+FamiliesCover == (Queries \cup GenKinds) \ (HeldQueries \cup {"held_iter"} \cup Solo) \subseteq UNION Families
+PairsRevisit ==
+  (Patterns /\ hist \in PP \cup PQ) =>
+     /\ hist[Len(hist)] = hist[1] /\ hist[1].op = "query"
+     /\ \E F \in Families : {hist[1].name, hist[2].name} \subseteq F
+     /\ (hist[2].op = "start" => \A i \in 3..(Len(hist) - 1) : hist[i].op = "advance" /\ hist[i].name = hist[2].name /\ hist[i].g = 1)
 \* the specification of every answer: a function of the query alone (history-free by construction);
 \* the k-th item of a generator is Item(kind, a, b, k)
 \* one emission per simulated behaviour: when the history is complete and ends with the final repositioning
